@@ -5,6 +5,7 @@ CONSTANTS
   RawToo = TRUE
   SeedIds = {0, 1, 3}
   Subjects = {1}
+  Pick = FALSE
 SPECIFICATION Spec
 INVARIANT Emit
 CONSTRAINT Small
